@@ -181,11 +181,19 @@ def check_case(case) -> Obs:
             if len(body) != len(expected):
                 obs.bad("C01/record-count", f"op {k} {kind}: {len(body)} records for {len(expected)} wells with volume > 0: {body[:6]}")
             else:
-                for rec, (w, v) in zip(body, expected):
-                    f = rec.split(";")
+                # every named well gets its record (the order of the records is the implementation's business)
+                pending = [r_.split(";") for r_ in body]
+                for w, v in expected:
                     want_pos = rack.position_of(w, device)
-                    if f[0] != ("A" if kind == "aspirate" else "D") or f[1] != spec["name"] or f[4] != str(want_pos) or abs(float(f[6]) - v) > 0.005 + 1e-9:
-                        obs.bad("C01/addressing", f"op {k} {kind} {device}: well {w} ({spec['kind']}) volume {v} -> record {rec!r}, expected rack {spec['name']!r} position {want_pos}")
+                    hit = None
+                    for f in pending:
+                        if f[0] == ("A" if kind == "aspirate" else "D") and f[1] == spec["name"] and f[4] == str(want_pos) and abs(float(f[6]) - v) <= 0.005 + 1e-9:
+                            hit = f
+                            break
+                    if hit is None:
+                        obs.bad("C01/addressing", f"op {k} {kind} {device}: well {w} ({spec['kind']}) volume {v}: no record for rack {spec['name']!r} position {want_pos} among {body[:6]}")
+                        break
+                    pending.remove(hit)
             if kind == "dispense":
                 for j in range(step.rec0, step.rec1):
                     if wl[j].startswith("D;"):
